@@ -124,6 +124,13 @@ def run_one(I, path_fn, prefix, arg, stats):
     res = PathResult()
     try:
         path_fn(Ctx(I, w, res), arg)
+        if w.stdout:
+            # library code wrote to the process's standard output (only cli::app writes the result): a C13 violation
+            # candidate in whatever harness it happens; checks that cannot replay it end inconclusive
+            txt = ''.join(chr(c) if isinstance(c, int) else '?' for c in w.stdout)[:200]
+            if not any(v.get('site') == 'stdout_write' for v in res.violations):
+                res.violations.append(dict(clause='stdout_write', site='stdout_write', text=txt, arg=arg if isinstance(arg, (dict, list, str, int)) else repr(arg),
+                                           detail='library code printed to standard output: %r' % txt, vkey='stdout_write'))
     except Panic as e:
         res.status = 'panic'
         res.detail = str(e)
